@@ -43,7 +43,7 @@ TWO = ("DelayAdjustedSTDP", "DelayAdjustedSTDPD")
 KER = ("KernelSTDP", "DelayAdjustedKernelSTDP", "DelayAdjustedKernelSTDPD")
 THREE = ("DelayAdjustedMSTDP", "DelayAdjustedMSTDPD")
 DELAYPARAM = ("DelayAdjustedSTDPD", "DelayAdjustedMSTDPD", "DelayAdjustedKernelSTDPD")
-REDK = {"sum": 0, "mean": 1, "amax": 2}
+REDK = {"sum": 0, "mean": 1, "amax": 2, "amin": 3}
 
 
 # --------------------------------------------------------------------------- geometry of a cell
@@ -162,7 +162,7 @@ def gen_conn(rng, dt, want_delay, conv_ok=True, force_conv=False):
 
 
 def gen_trainer(rng, cls):
-    red = rng.choice(["sum", "sum", "mean", "mean", "amax"])
+    red = rng.choice(["sum", "sum", "sum", "mean", "mean", "mean", "amax", "amin"])
     lr_a, lr_b = rng.choice(LRS), rng.choice(LRS)
     tc_a, tc_b = rng.choice(TCS), rng.choice(TCS)
     if cls in KER:
@@ -432,6 +432,100 @@ def gen_group(rng, gid, cls=None, persample=None):
     return cells
 
 
+def gen_shared_tensor_group(rng, gid, cls):
+    """kernel trainers: tensor-valued kernel keyword arguments given ONCE to the constructor and shared, as defaults, by 2-3
+    cells that do not override them (each cell must get its own clone); later one cell's buffer is changed IN PLACE
+    (mul_, fill_, copy_) and so is the caller's original tensor object: only that cell may change"""
+    defaults = gen_trainer(rng, cls)
+    for k in HP_KEYS["ker"]:
+        if k.startswith("lr_") and defaults[k] == 0:
+            defaults[k] = rng.choice([0.5, -0.5, 1.0, -0.3])
+    defaults["red"] = rng.choice(["sum", "mean"])
+    defaults["types"] = {k: rng.choice(["t0", "t1"]) for k in HP_KEYS["ker"]}
+    B, T, ncell = rng.randint(1, 2), rng.randint(5, 10), rng.choice([2, 2, 3])
+    cells = []
+    for j in range(ncell):
+        dt = rng.choice(DTS)
+        conn = gen_conn(rng, dt, True if cls != "KernelSTDP" else rng.random() < 0.5, conv_ok=rng.random() < 0.3)
+        eff = copy.deepcopy(defaults)
+        keys = []
+        if rng.random() < 0.4:
+            eff["red"] = rng.choice(["sum", "mean"])
+            keys = ["red"]
+        case = {"kind": "cell", "B": B, "conn": conn, "trainer": eff, "group": gid, "defaults": defaults,
+                "override_keys": keys, "override_extra": {}}
+        case["steps"] = gen_steps(rng, case, geometry(case), T)
+        for st in case["steps"]:
+            st["update"] = False
+        cells.append(case)
+
+    def new_value(key, old):
+        if key.startswith("tc_"):
+            if rng.random() < 0.5:
+                c = rng.choice([0.5, 2.0])
+                return old * c, {"op": "mul_", "arg": c}
+            v = rng.choice([x for x in TCS if x != old])
+            return v, {"op": rng.choice(["fill_", "copy_"]), "arg": v}
+        if rng.random() < 0.5:
+            c = rng.choice([-1.0, 0.5, 2.0, -0.5])
+            return old * c, {"op": "mul_", "arg": c}
+        v = rng.choice([x for x in LRS if x not in (0.0, old)])
+        return v, {"op": rng.choice(["fill_", "copy_"]), "arg": v}
+
+    victim = rng.randrange(ncell)
+    cur = {k: defaults[k] for k in HP_KEYS["ker"]}
+    for k in sorted(rng.sample(range(1, T), rng.randint(1, 2))):
+        ra, ops = {}, {}
+        for key in [x for x in HP_KEYS["ker"] if rng.random() < 0.6] or ["lr_pre"]:
+            cur[key], ops[key] = new_value(key, cur[key])
+            ra[key] = cur[key]
+        cells[victim]["steps"][k]["reassign"] = ra
+        cells[victim]["steps"][k]["reassign_ops"] = ops
+    orig = {k: defaults[k] for k in HP_KEYS["ker"]}
+    k = rng.randrange(1, T)
+    oo = {}
+    for key in [x for x in HP_KEYS["ker"] if rng.random() < 0.6] or ["lr_pre"]:
+        orig[key], oo[key] = new_value(key, orig[key])
+    cells[0]["steps"][k]["original_ops"] = oo
+    return cells
+
+
+def gen_minmax_pair(rng):
+    """kernel == dedicated rule under a NON-ADDITIVE batch reduction (amax / amin), batch of 2-3, both learning rates
+    non-negative (the sign mode in which the unchanged kernel trainers agree with the dedicated rules, see the exclusion in
+    expected_parts), dense histories so that on one synapse some samples are causal while others are anti-causal"""
+    what = rng.choice(["kernel_eq", "kernel_eq_d"])
+    cls = "DelayAdjustedSTDP" if what == "kernel_eq" else "DelayAdjustedSTDPD"
+    dt = rng.choice([1.0, 0.5, 0.25])
+    a = {"kind": "cell", "B": rng.choice([2, 3, 3]),
+         "conn": {"cls": "LinearDense", "in": [rng.randint(1, 2)], "out": [rng.randint(1, 2)], "dt": dt, "delay": 3 * dt,
+                  "bias": False},
+         "trainer": gen_trainer(rng, cls)}
+    ta = a["trainer"]
+    ta["red"] = rng.choice(["amax", "amin"])
+    ta["lr_pos"], ta["lr_neg"] = rng.choice([0.3, 0.5, 1.0, 0.7]), rng.choice([0.3, 0.5, 1.0, 0.7])
+    ta.pop("types", None)
+    assign_types(rng, ta)
+    g = geometry(a)
+    B = a["B"]
+    dv = [0.0, dt, dt / 2]
+    steps = []
+    for k in range(rng.randint(5, 10)):
+        steps.append({"pre": [int(rng.random() < 0.45) for _ in range(B * g["nin"])],
+                      "post": [int(rng.random() < 0.45) for _ in range(B * g["nout"])],
+                      "delay": [rng.choice(dv) for _ in range(g["nparam"])] if k == 0 else None, "update": False})
+    a["steps"] = steps
+    b = copy.deepcopy(a)
+    if what == "kernel_eq":
+        b["trainer"] = {"cls": "DelayAdjustedKernelSTDP", "red": ta["red"], "lr_post": ta["lr_pos"], "tc_post": ta["tc_pos"],
+                        "lr_pre": ta["lr_neg"], "tc_pre": ta["tc_neg"]}
+    else:
+        b["trainer"] = {"cls": "DelayAdjustedKernelSTDPD", "red": ta["red"], "lr_post": ta["lr_neg"], "tc_post": ta["tc_neg"],
+                        "lr_pre": ta["lr_pos"], "tc_pre": ta["tc_pos"]}
+    assign_types(rng, b["trainer"])
+    return what + "_minmax", a, b
+
+
 def gen_pair(rng):
     """two cells fed the same spike trains whose accumulated parts must coincide"""
     what = rng.choice(["kernel_eq", "kernel_eq_d", "zero_delay", "zero_delay_da"])
@@ -610,7 +704,7 @@ def red_apply(red, xs):
         return math.fsum(xs)
     if red == "mean":
         return math.fsum(xs) / len(xs)
-    return max(xs)
+    return max(xs) if red == "amax" else min(xs)
 
 
 def expected_parts(case, g, k, last_pre, last_post, delays, st, t=None):
@@ -630,8 +724,14 @@ def expected_parts(case, g, k, last_pre, last_post, delays, st, t=None):
     persample = cls in THREE and isinstance(st["signal"], list)
     if persample and red != "sum":
         return None
-    if cls in KER and red == "amax":
-        return None       # max over the batch does not commute with the sign split of the kernel trainers
+    if cls in KER and red in ("amax", "amin"):
+        # EXPLICIT EXCLUSION (theorem kernel_eq_amax_refuted, evidence key observation_amax_pairs): the kernel trainers negate
+        # AFTER reducing, so with a NEGATIVE learning rate their depressing part is the batch minimum (maximum for amin) of the
+        # per-sample magnitudes - the unchanged code itself disagrees with the dedicated rules there.  With non-negative
+        # rates max/min commute with the scaling and the documented parts are determined.
+        allv = [x for v in (lr_c, lr_a) for x in (v if isinstance(v, list) else [v])]
+        if any(x < 0 for x in allv):
+            return None
     pos, neg = [], []
     el = lambda v, e: v[e] if isinstance(v, list) else v     # noqa: E731  (tensor-valued kernel kwargs: one per element)
     hyper = (lr_c, tc_c, lr_a, tc_a)
@@ -952,8 +1052,8 @@ def run(ctx):
     quick = ctx["tier"] == "quick"
     STATS.clear()
     PARTIAL.clear()
-    n_single, n_conv, n_reassign, n_group, n_pair, n_ker = ((21, 21, 28, 42, 32, 30) if quick
-                                                            else (700, 350, 350, 800, 600, 300))
+    n_single, n_conv, n_reassign, n_group, n_pair, n_ker, n_minmax, n_shared = (
+        (14, 21, 21, 35, 24, 20, 14, 12) if quick else (600, 350, 350, 700, 500, 300, 250, 200))
     cases = []
     pairs = []
     gid = 0
@@ -982,6 +1082,13 @@ def run(ctx):
         what, a, b = gen_pair(rng)
         pairs.append((what, len(cases), len(cases) + 1))
         cases += [a, b]
+    for _ in range(n_minmax):
+        what, a, b = gen_minmax_pair(rng)
+        pairs.append((what, len(cases), len(cases) + 1))
+        cases += [a, b]
+    for k in range(n_shared):
+        cases += gen_shared_tensor_group(rng, gid, KER[k % 3])
+        gid += 1
     for _ in range(n_ker):
         cases.append(gen_kernel_case(rng))
     if not quick:
@@ -1042,6 +1149,10 @@ def run(ctx):
                 any((x >= 0) != (c["defaults"][k] >= 0) for x in (c["trainer"][k] if isinstance(c["trainer"][k], list)
                                                                     else [c["trainer"][k]]))
                 for k in c["trainer"] if k.startswith("lr_"))),
+        "cells_sharing_tensor_defaults_with_in_place_changes": sum(
+            1 for c in cells if c.get("defaults") and not {"post", "pre"} & set(c.get("override_keys", []))
+            and any(st.get("reassign_ops") or st.get("original_ops") for x in cells if x.get("group") == c["group"]
+                    for st in x["steps"])),
         "cells_with_state_reassigned_mid_run_by_trainer": dict(Counter(c["trainer"]["cls"] for c in cells if has_reassign(c))),
         "reassigned_attribute_distribution": dict(Counter(k for c in cells for st in c["steps"]
                                                           for k in (st.get("reassign") or {}))),
